@@ -38,7 +38,7 @@ NOT_DECIDED = [
     "ragged rows and merged cells (grid geometry is value level)",
     "order of tables in the output", "index arithmetic of the trimming code (which column index is recorded as the last data column)"]
 TRUSTED = ["the tree grammars in sa/schemas", "ElementTree axis semantics", "openpyxl iter_rows(values_only=True) yields every cell of the used range"]
-FLOORS = {"C13-GRID": 4, "C13-ROWS": 4, "C13-ODS": 2, "C13-WALK": 60, "C13-KEY": 5, "C13-TRIM": 8, "C13-SPINE": 2, "C13-DIM": 5, "C13-VIEW": 5}
+FLOORS = {"C13-TAIL": 3, "C13-GRID": 4, "C13-ROWS": 4, "C13-ODS": 2, "C13-WALK": 60, "C13-KEY": 5, "C13-TRIM": 8, "C13-SPINE": 2, "C13-DIM": 5, "C13-VIEW": 5}
 
 W = s_docx.NS["w"]
 TABLE_WALKS = [
@@ -538,4 +538,14 @@ def rule_grid(ctx: Ctx) -> RuleReport:
     return rep
 
 
-RULES = [rule_walk, rule_key, rule_trim, rule_spine, rule_dim, rule_view, rule_rows, rule_ods, rule_grid]
+def rule_tail(ctx: Ctx) -> RuleReport:
+    """Cell (i, j) holds exactly the text of source cell (i, j): the blank between two inline elements of a cell is part of it (= the tail
+    clause of C02-DATA; the shared ODF text collector feeds ODT / ODS / ODP cells)."""
+    from sa.rules.c02 import tail_clauses
+
+    rep = RuleReport("C13-TAIL", "element tails are emitted whenever they are non-empty (no test of their content): the blank between two inline elements of a cell survives")
+    tail_clauses(ctx, rep, "C13-TAIL")
+    return rep
+
+
+RULES = [rule_walk, rule_key, rule_trim, rule_spine, rule_dim, rule_view, rule_rows, rule_ods, rule_grid, rule_tail]
